@@ -215,7 +215,12 @@ CHECKS['C02'] = dict(
          "(also at #inf/#sup), and C02_comparison_*_partial (Cnl/AggregateProofs.v): for every phrase of the grammar / between with numeric or "
          "aggregate bounds / aggregate-vs-aggregate, both polarities and EVERY value of the aggregates, the comparison literals emitted through the "
          "regenerated tables and convert_operation's three aggregate paths hold exactly when the named comparison holds (prohibited) / fails "
-         "(required). Not proved: that the emitted aggregate term evaluates to the reading's count/sum/max/min (partial). Cnl/Aggregate.v: the seven aggregate sentence forms over a two-concept one-relation vocabulary, their READING, the "
+         "(required). C02_aggregate_term_value_partial (Cnl/AggregateTermProofs.v): for five of the seven sentence forms with an outer label and all four "
+         "functions, under any binding and on any admissible interpretation, the emitted aggregate term evaluates to the reading's "
+         "count/sum/max/min over the distinct qualifying tuples; C02_unbound_sentence_correct_partial: END TO END for sentences without outer "
+         "variables compared with a number or a pair of numbers (any rooms/shelves, every phrase/function/polarity): the emitted constraint is "
+         "violated by exactly the interpretations the reading excludes. Not proved: of-entity and plain-weight passive forms, filters, "
+         "author-named counted values, and the end-to-end statement with outer variables or aggregate operands (partial). Cnl/Aggregate.v: the seven aggregate sentence forms over a two-concept one-relation vocabulary, their READING, the "
          "compile model (the emitted rule, using the generated operator / phrase / negation / between tables and Cnl/Comparison.v) and the semantics "
          "of the emitted rule. Tie: the compile model must print the implementation's constraint modulo renaming of variables by first occurrence; "
          "oracle: for every generated specification ALL 2^(n*m) interpretations are evaluated in Coq: reading = membership in clingo's answer sets of "
